@@ -223,8 +223,9 @@ def batchNormHyp (p : BatchNorm) : Bool := p.gemmBetaIsOne && !p.trainingMode
 
 /-! ## Expand before a broadcasting binary op — strategy 1 (constant target shape) -/
 
-/-- `_check_expand_removable`, strategy 1.  `x`, `y` shapes are annotations; `e` is the constant target. -/
-def expandRemovableConst (xShape yShape : Option Shape) (e : List Int) : Bool :=
+/-- `_check_expand_removable`, strategy 1, **before commit 48b48d2** (no rank guard; finding C05-N3a, fixed).
+`x`, `y` shapes are annotations; `e` is the constant target. -/
+def expandRemovableConstPrefix (xShape yShape : Option Shape) (e : List Int) : Bool :=
   match xShape, yShape with
   | some xs, some ys =>
     (List.range e.length).all (fun rev =>
@@ -238,7 +239,13 @@ def expandRemovableConst (xShape yShape : Option Shape) (e : List Int) : Bool :=
   | _, _ => false
 
 /-- The rank of the result changes when the Expand target is longer than both operands
-(finding C05-N3a): the guard accepts leading `1`s. -/
+(finding C05-N3a, fixed): the pre-fix guard accepted leading `1`s. -/
 def expandRankChanges (xRank yRank eLen : Nat) : Bool := max xRank yRank < eLen
+
+/-- `_check_expand_removable`, strategy 1, as it is now: `if expand_rank > max(x_rank, y_rank): fail`, then the per-dim test. -/
+def expandRemovableConst (xShape yShape : Option Shape) (e : List Int) : Bool :=
+  match xShape, yShape with
+  | some xs, some ys => !expandRankChanges xs.length ys.length e.length && expandRemovableConstPrefix xShape yShape e
+  | _, _ => false
 
 end OV.C05.Linalg
